@@ -39,12 +39,37 @@ Definition read_case :=
   (option (list nat) * option (list nat) * option (list Z) * nat * list (list Z)
    * option (list oarr * option oarr * list nat))%type.
 
-Definition check_read_gen bump (cs : read_case) : bool :=
+(* the same with the rows of the indexed arrays taken over range(n_instances) *)
+Definition run_read_range_gen bump (g : container) (datas : list (list Z))
+  : option (list oarr * option oarr * list nat) :=
+  if accepted g then
+    Some (map (fun d => (bounds_shape_gen bump g, concat (concat (read_bounds_range_gen bump g d)))) datas,
+          option_map (fun r => (ring_shape_gen bump g, concat r)) (read_ring_range_gen bump g),
+          coord_shape true (bounds_shape_gen bump g))
+  else None.
+
+Definition container_of_case (cs : read_case) : container :=
   let '(nc, pnc, ring, nnodes, datas, obs) := cs in
-  let g := {| g_nc := nc; g_pnc := pnc; g_ring := ring; g_nnodes := nnodes |} in
-  obs_read_eqb (run_read_gen bump g datas) obs.
+  {| g_nc := nc; g_pnc := pnc; g_ring := ring; g_nnodes := nnodes |}.
+
+(* rows by numpy.unique(index) - the tree without handoff/C06-fix-1.diff *)
+Definition check_read_unique_gen bump (cs : read_case) : bool :=
+  let '(nc, pnc, ring, nnodes, datas, obs) := cs in
+  obs_read_eqb (run_read_gen bump (container_of_case cs) datas) obs.
+
+(* rows by range(n_instances) - the tree with it *)
+Definition check_read_range_gen bump (cs : read_case) : bool :=
+  let '(nc, pnc, ring, nnodes, datas, obs) := cs in
+  obs_read_eqb (run_read_range_gen bump (container_of_case cs) datas) obs.
+
+(* Either is accepted: the two agree on every consistent container (Lemmas.read_bounds_range_cells);
+   they differ only on malformed ones whose derived index skips an instance id. *)
+Definition check_read_gen bump (cs : read_case) : bool :=
+  check_read_unique_gen bump cs || check_read_range_gen bump cs.
 
 Definition check_read := check_read_gen new_bump.
+Definition check_read_unique := check_read_unique_gen new_bump.
+Definition check_read_range := check_read_range_gen new_bump.
 Definition check_read_old := check_read_gen old_bump.
 
 (* a write case: the bounds arrays of the node coordinate constructs (same missing-data pattern),
